@@ -109,15 +109,6 @@ theorem extract_ratio_range (ans : Answer α) (εA thr : α) (mods : List (Glb.M
   obtain ⟨m, _, _, _, hlt⟩ := (mem_cellAlloc ans thr mods c p.1 p.2).mp hp
   exact ⟨h0, h1', hlt⟩
 
-theorem forall₂_mem_right {β γ : Type} {R : β → γ → Prop} {l1 : List β} {l2 : List γ} (h : List.Forall₂ R l1 l2)
-    (b : γ) (hb : b ∈ l2) : ∃ a ∈ l1, R a b := by
-  induction h with
-  | nil => simp at hb
-  | cons hab _ ih =>
-    rcases List.mem_cons.mp hb with rfl | hb'
-    · exact ⟨_, by simp, hab⟩
-    · obtain ⟨a, ha, hr⟩ := ih hb'; exact ⟨a, by simp [ha], hr⟩
-
 /-- every updated module carries the answer's centre and keeps its name and flags. -/
 theorem updateModule_fields (ans : Answer α) (m m' : Glb.Module α) (h : updateModule ans m = some m') :
     m'.cx = ans.x m.name ∧ m'.cy = ans.y m.name ∧ m'.name = m.name ∧ m'.hard = m.hard ∧ m'.fixed = m.fixed ∧
@@ -157,49 +148,6 @@ theorem extract_ratios (ans : Answer α) (εA thr tol : α) (die : Rect α) (mod
     rw [hx, hy]; exact post.centres m hm
 
 /-! ### fixed modules -/
-
-theorem forall₂_get {β γ : Type} {R : β → γ → Prop} {l1 : List β} {l2 : List γ} (h : List.Forall₂ R l1 l2)
-    (i : Nat) (a : β) (b : γ) (ha : l1[i]? = some a) (hb : l2[i]? = some b) : R a b := by
-  induction h generalizing i with
-  | nil => simp at ha
-  | cons hab _ ih =>
-    cases i with
-    | zero => simp at ha hb; subst ha; subst hb; exact hab
-    | succ i => simp at ha hb; exact ih i ha hb
-
-/-- In a cell where module `f` has ratio 1, a non-negative answer whose row sums to at most `1 + tol` with
-    `tol ≤ 1 - thr` and `0 < thr` lists `f` alone, with ratio 1. -/
-theorem cellAlloc_owned (ans : Answer α) (thr tol : α) (mods : List (Glb.Module α)) (c : Nat) (f : Glb.Module α)
-    (hthr : 0 < thr) (htol : tol ≤ 1 - thr) (hf : f ∈ mods) (h1 : ans.a f.name c = 1)
-    (hnn : ∀ m ∈ mods, 0 ≤ ans.a m.name c) (hrow : (mods.map fun m => ans.a m.name c).sum ≤ 1 + tol) :
-    cellAlloc ans thr mods c = [(f.name, 1)] := by
-  obtain ⟨l1, l2, rfl⟩ := List.append_of_mem hf
-  rw [cellAlloc_eq_map_filter]
-  simp only [List.map_append, List.map_cons, List.sum_append, List.sum_cons, h1] at hrow
-  have hn1 : ∀ m ∈ l1, 0 ≤ ans.a m.name c := fun m hm => hnn m (by simp [hm])
-  have hn2 : ∀ m ∈ l2, 0 ≤ ans.a m.name c := fun m hm => hnn m (by simp [hm])
-  have s1 := sum_nonneg' l1 (fun m => ans.a m.name c) hn1
-  have s2 := sum_nonneg' l2 (fun m => ans.a m.name c) hn2
-  have e1 : l1.filter (fun m => decide (1 - thr < ans.a m.name c)) = [] := by
-    rw [List.filter_eq_nil_iff]; intro m hm
-    have := le_sum_of_mem l1 (fun m => ans.a m.name c) hn1 m hm
-    simp only [decide_eq_true_eq, not_lt]; linarith
-  have e2 : l2.filter (fun m => decide (1 - thr < ans.a m.name c)) = [] := by
-    rw [List.filter_eq_nil_iff]; intro m hm
-    have := le_sum_of_mem l2 (fun m => ans.a m.name c) hn2 m hm
-    simp only [decide_eq_true_eq, not_lt]; linarith
-  have e3 : decide (1 - thr < ans.a f.name c) = true := by rw [h1]; simp; linarith
-  rw [List.filter_append, List.filter_cons, e1, e2, e3]
-  simp [h1]
-
-theorem getA_isSome (offered : List (RectAlloc α)) (f : Glb.Module α) (c : Nat) (hc : c < offered.length) :
-    ∃ v, getA offered f c = some v := by
-  unfold getA
-  rw [List.getElem?_eq_getElem hc]
-  dsimp only
-  split
-  · exact ⟨_, rfl⟩
-  · split <;> exact ⟨_, rfl⟩
 
 /-- **Fixed modules keep their rectangles and fully own their cells.**  For `0 < thr`, a fixed module `f` of the
     netlist, an answer that reads FRAME's constants back (`ConstRespect`), an offered allocation that treats `f`
@@ -388,7 +336,7 @@ theorem glbLoop_invariant (solve : State α → Option (Answer α)) (mustRefine 
   | zero => simp [glbLoop] at h
   | succ fuel ih =>
     unfold glbLoop at h
-    by_cases hc : (match maxIter with | none => true | some k => decide (n ≤ k)) = true
+    by_cases hc : withinLimit maxIter n = true
     · rw [if_pos hc] at h
       by_cases h1 : 1 < n
       · rw [if_pos h1] at h
